@@ -104,7 +104,10 @@ def observe_binary(bins, repo, fmt, gitlog=None, cwd=None, cdir=None):
     env = core.base_env(bins, home=os.path.dirname(repo.path), gitlog=gitlog, use_gitshim=gitlog is not None)
     r = core.run_zerv(bins, ["version", "-C", cdir or repo.path, "--input-format", fmt, "--output-format", "zerv"], env=env, cwd=cwd or "/")
     if r["timeout"]:
-        raise core.Inconclusive("zerv timed out on %s" % repo.path)
+        # loaded machine: one generous retry; a second timeout is an inconclusive *event*, never a verdict
+        r = core.run_zerv(bins, ["version", "-C", cdir or repo.path, "--input-format", fmt, "--output-format", "zerv"], env=env, cwd=cwd or "/", timeout=180)
+        if r["timeout"]:
+            return dict(timeout=True)
     if r["exit"] != 0:
         if "panicked" in r["err"]:
             return dict(panic=r["err"][:300], at="binary")
@@ -181,6 +184,9 @@ def work_history(bins, seed, idx, nops, nobs_cap, tmp):
             shape = (tuple(tuple(c["parents"]) for c in repo.commits), repo.head_cid(), kind, tuple(sorted((t["name"], t["cid"]) for t in repo.tags)))
             shapes.add(hash(shape))
             for via, obs in (("probe", obs_p), ("binary", obs_b)):
+                if obs.get("timeout"):
+                    st("inconclusive_timeouts")
+                    continue
                 for sig, why in judge(repo, fmt, dirty, obs, via):
                     if len(bad) < 12:
                         bad.append((sig, "[%s, -f %s, dirt=%s] %s" % (via, fmt, kind, why),
